@@ -40,6 +40,11 @@ type Stream struct {
 	// enumerated (exhaustive) streams: case i of EnumSize(tier); Gen is then unused
 	Enum     func(i int, tier string) Case
 	EnumSize func(tier string) int
+	// Workers > 0 fixes the number of concurrent workers (1 = a sequential history); Setup runs once first
+	Workers int
+	Setup   func(tier string)
+	// Final cases produced after all others (e.g. re-reading results handed out earlier)
+	Final func() []Case
 }
 
 var streams = map[string]*Stream{}
@@ -236,6 +241,16 @@ func runStream(st *Stream, seed uint64, n int, tier, driverPath string, workers 
 		}(w)
 	}
 	wg.Wait()
+	if st.Final != nil {
+		if d, err := StartDriver(driverPath); err == nil {
+			for k, cs := range st.Final() {
+				if r, err := ask(d, &cs); err == nil {
+					col.add(st.Name, seed, -1000-k, cs, r)
+				}
+			}
+			d.Close()
+		}
+	}
 	select {
 	case err := <-errs:
 		sum.Error = err.Error()
@@ -284,6 +299,12 @@ func main() {
 			} else {
 				cnt = st.Size[*tier]
 			}
+		}
+		if st.Workers > 0 {
+			*workers = st.Workers
+		}
+		if st.Setup != nil {
+			st.Setup(*tier)
 		}
 		sum := runStream(st, *seed, cnt, *tier, *driver, *workers)
 		data, _ := json.MarshalIndent(sum, "", " ")
